@@ -279,6 +279,23 @@ func ruleC01(c *Ctx) {
 			}
 		}
 	})
+	// ... or handed to a function of the module that decides what to do with it (a helper that maps the
+	// one-value keywords to their fields): its comparisons are part of the dispatch, not read here
+	eachInstr(parse, func(i ssa.Instruction) {
+		ci, ok := i.(ssa.CallInstruction)
+		if !ok {
+			return
+		}
+		callee := ci.Common().StaticCallee()
+		if callee == nil || !inModule(callee) {
+			return
+		}
+		for _, a := range ci.Common().Args {
+			if tb.T(a).String() == key {
+				tableDispatch = true
+			}
+		}
+	})
 	eachInstr(parse, func(i ssa.Instruction) {
 		mu, ok := i.(*ssa.MapUpdate)
 		if !ok {
@@ -363,7 +380,12 @@ func ruleC01(c *Ctx) {
 						break
 					}
 				}
-				c.check(len(missing) == 0, "FIELDMAP-R", "top-level keyword table agrees with the dispatch", av.Pos, fmt.Sprintf("%d table entries all have a case", len(av.Elts)), "keywords in the table without a case: "+strings.Join(missing, ","))
+				if len(missing) > 0 && tableDispatch {
+					c.undecided("FIELDMAP-R", "top-level keyword table agrees with the dispatch", av.Pos, "the keyword is also dispatched outside Parse's own comparisons (a table, a helper); keywords not seen here: "+strings.Join(missing, ","))
+					missing = nil
+				} else {
+					c.check(len(missing) == 0, "FIELDMAP-R", "top-level keyword table agrees with the dispatch", av.Pos, fmt.Sprintf("%d table entries all have a case", len(av.Elts)), "keywords in the table without a case: "+strings.Join(missing, ","))
+				}
 			}
 		}
 	}
